@@ -342,6 +342,32 @@ func runReplay[C any](t *testing.T, sp Spec[C], path string) {
 	fmt.Printf("VERIF-REPLAY-OK property=%s\n", sp.ID)
 }
 
+
+// Fuzz runs the same property under Go's native coverage-guided fuzzer: the fuzzer's byte string
+// is the entropy source of the rapid generators (rapid.MakeFuzz), so coverage feedback steers the
+// generated cases. Used by the thorough tier for deterministic, sequential harnesses only. A
+// failing case is written as an ordinary replay file; the fuzzer's own crasher file is not used.
+func Fuzz[C any](f *testing.F, sp Spec[C]) {
+	f.Add([]byte{})
+	f.Fuzz(rapid.MakeFuzz(func(rt *rapid.T) {
+		c := sp.Gen(rt)
+		x := &Ctx{}
+		fl := sp.Exec(c, x)
+		if fl == nil || x.excluded != "" || knownSigs[fl.Sig] {
+			return
+		}
+		cj, _ := json.Marshal(c)
+		replayPath := ""
+		if d := os.Getenv("VERIF_REPLAY_DIR"); d != "" {
+			replayPath = filepath.Join(d, fmt.Sprintf("%s-fuzz-%d.json", sp.ID, os.Getpid()))
+			rf := replayFile{Property: sp.ID, Sig: fl.Sig, Msg: fl.Msg, Seed: "native-fuzz", Case: cj, History: fl.History}
+			b, _ := json.MarshalIndent(rf, "", " ")
+			_ = os.WriteFile(replayPath, b, 0o644)
+		}
+		rt.Fatalf("VERIF-FAIL property=%s sig=%s replay=%s\n%s", sp.ID, fl.Sig, replayPath, fl.Msg)
+	}))
+}
+
 // SortedKeys is a small helper for deterministic iteration over maps.
 func SortedKeys[V any](m map[int]V) []int {
 	ks := make([]int, 0, len(m))
